@@ -25,6 +25,8 @@ type fileSpec struct {
 	Epoch      int    `json:"epoch"`
 	RangeStart int    `json:"range_start"` // -1: whole epoch through Batches/Chunks
 	RangeEnd   int    `json:"range_end"`
+	Bytes      bool   `json:"arbitrary_bytes"`   // line content incl. trailing \r, tab, space, 0xff
+	Interleave bool   `json:"interleaved_reads"` // all chunks of a batch open at once, read round-robin
 }
 
 type witness struct {
@@ -65,6 +67,21 @@ func build(dir string, fs *fileSpec) (string, [][]byte, error) {
 		l := []byte(fmt.Sprintf("%d:", i))
 		for len(l) < n {
 			l = append(l, byte('a'+(i+len(l))%26))
+		}
+		// a line is any byte string without '\n': carriage returns, tabs, spaces and high bytes are content
+		if fs.Bytes {
+			switch rng.IntN(6) {
+			case 0:
+				l[len(l)-1] = '\r'
+			case 1:
+				l = append(l, '\r')
+			case 2:
+				l[len(l)-1] = ' '
+			case 3:
+				l[len(l)-1] = '\t'
+			case 4:
+				l[len(l)-1] = 0xff
+			}
 		}
 		lines = append(lines, l)
 		w.Write(l)
@@ -135,6 +152,44 @@ func readRange(c *epd.Chunker, epoch, s, t int) (got [][]byte, err error) {
 			return got, fmt.Errorf("more lines than the range holds")
 		}
 	}
+}
+
+// readInterleaved opens every chunk first and then reads them round-robin, one line at a time.
+func readInterleaved(c *epd.Chunker, epoch int, cks []tuning.Range) (got [][]byte, err error) {
+	defer func() {
+		if x := recover(); x != nil {
+			err = fmt.Errorf("panic: %v", x)
+		}
+	}()
+	var open []*epd.Chunk
+	for _, ck := range cks {
+		ch, err := c.Open(epoch, ck.Start, ck.End)
+		if err != nil {
+			return nil, err
+		}
+		defer ch.Close()
+		open = append(open, ch)
+	}
+	live := len(open)
+	done := make([]bool, len(open))
+	for live > 0 {
+		for i, ch := range open {
+			if done[i] {
+				continue
+			}
+			l, err := ch.Read()
+			if err == io.EOF {
+				done[i] = true
+				live--
+				continue
+			}
+			if err != nil {
+				return got, err
+			}
+			got = append(got, append([]byte(nil), l...))
+		}
+	}
+	return got, nil
 }
 
 func multiset(ls [][]byte) map[string]int {
@@ -225,6 +280,24 @@ func fileCase(r *ev.Run, dir string, fs fileSpec) {
 		prevEnd = b.End
 		r.Count("batches", 1)
 		cprev := b.Start
+		if fs.Interleave {
+			// the client's workers keep several chunks of one Chunker open at the same time
+			var cks []tuning.Range
+			for ck := range tuning.Chunks(b) {
+				cks = append(cks, ck)
+			}
+			got, err := readInterleaved(c, fs.Epoch, cks)
+			if err != nil {
+				r.Violation("C20:read-error", wit, fmt.Sprintf("interleaved chunks of batch %+v epoch %d: %v", b, fs.Epoch, err))
+				return
+			}
+			for _, ck := range cks {
+				covered += ck.Len()
+				r.Count("chunks_read_interleaved", 1)
+			}
+			all = append(all, got...)
+			continue
+		}
 		for ck := range tuning.Chunks(b) {
 			if ck.Start != cprev || ck.End > b.End || ck.End <= ck.Start {
 				r.Violation("C20:chunks-do-not-partition", wit, fmt.Sprintf("chunk %+v in batch %+v, previous chunk ended at %d", ck, b, cprev))
@@ -366,7 +439,7 @@ func TestCheck(t *testing.T) {
 		rng := r.RNG("c20-files", i)
 		n := i + 1
 		for k, bl := range blanks {
-			fs := fileSpec{Lines: n, MinLen: 1, MaxLen: 1 + rng.IntN(60), Blank: bl, Seed: rng.Uint64(), Epoch: rng.IntN(64), RangeStart: -1}
+			fs := fileSpec{Lines: n, MinLen: 1, MaxLen: 1 + rng.IntN(60), Blank: bl, Seed: rng.Uint64(), Epoch: rng.IntN(64), RangeStart: -1, Bytes: k%2 == 1}
 			if k == 0 && n%7 == 0 {
 				fs.MaxLen = 4000 // below the 4 KiB line-reader buffer
 			}
@@ -394,7 +467,10 @@ func TestCheck(t *testing.T) {
 	ev.Parallel(len(sizes), func(wk, i int) {
 		rng := r.RNG("c20-sizes", i)
 		bl := blanks[i%len(blanks)]
-		fs := fileSpec{Lines: sizes[i], MinLen: 1, MaxLen: 24, Blank: bl, Seed: rng.Uint64(), Epoch: rng.IntN(1000), RangeStart: -1}
+		fs := fileSpec{Lines: sizes[i], MinLen: 1, MaxLen: 24, Blank: bl, Seed: rng.Uint64(), Epoch: rng.IntN(1000), RangeStart: -1, Bytes: i%2 == 0}
+		fileCase(r, dir, fs)
+		fs.Interleave = true
+		fs.Epoch++
 		fileCase(r, dir, fs)
 		fs.RangeStart = rng.IntN(sizes[i])
 		fs.RangeEnd = fs.RangeStart + 1 + rng.IntN(sizes[i]-fs.RangeStart)
@@ -423,11 +499,14 @@ func TestCheck(t *testing.T) {
 		fs.RangeStart = -1
 		fs.Epoch++
 		fileCase(r, dir, fs) // and through Batches/Chunks
+		fs.Interleave = true
+		fs.Epoch++
+		fileCase(r, dir, fs) // and with all 16 chunks open at once: every chunk refills its own window
 		r.Sample(map[string]any{"kind": "large-file", "bytes": sz, "lines": fs.Lines, "line_len": "2800..3990"})
 		r.Distinct(1 << 43)
 	}
 	r.Finish("shuffle_permutations_checked", "files", "sub_ranges", "batches", "chunks", "files_with_blank_lines_middle", "files_with_blank_lines_runs", "files_with_blank_lines_start",
-		"files_with_blank_lines_end", "files_with_blank_lines_everywhere", "large_file_bytes")
+		"files_with_blank_lines_end", "files_with_blank_lines_everywhere", "large_file_bytes", "chunks_read_interleaved")
 }
 
 var _ = bytes.Equal
